@@ -479,6 +479,10 @@ func (pa *path) doSourceStaticSetReady(req defs.PathSourceStaticSetReadyReq) {
 
 	err := subStream.Initialize()
 	if err != nil {
+		// the stream has just been made available: do not leave it available without a source
+		if !pa.conf.AlwaysAvailable {
+			pa.setNotAvailable()
+		}
 		req.Res <- defs.PathSourceStaticSetReadyRes{Err: err}
 		return
 	}
@@ -603,6 +607,10 @@ func (pa *path) doAddPublisher(req defs.PathAddPublisherReq) {
 
 	err := subStream.Initialize()
 	if err != nil {
+		// the stream has just been made available: do not leave it available without a source
+		if !pa.conf.AlwaysAvailable {
+			pa.setNotAvailable()
+		}
 		req.Res <- defs.PathAddPublisherRes{Err: err}
 		return
 	}
